@@ -150,7 +150,10 @@ func (c *collector) failCase(kind string, caseJSON []byte, msg string) string {
 	}
 	dir = filepath.Join(dir, c.Property)
 	os.MkdirAll(dir, 0o755)
-	name := fmt.Sprintf("fail-%s-%s.json", kindSlug(kind), *flagShard)
+	name := fmt.Sprintf("fail-%s.json", *flagShard)
+	if strings.HasPrefix(kind, "regress_") {
+		name = fmt.Sprintf("fail-%s-%s.json", kindSlug(kind), *flagShard)
+	}
 	p := filepath.Join(dir, name)
 	rf := replayFile{Property: c.Property, Kind: kind, Message: msg, Case: caseJSON}
 	b, _ := json.MarshalIndent(rf, "", " ")
@@ -229,6 +232,11 @@ type knownEntry struct {
 
 var knownFindings []knownEntry
 
+// known_findings.txt: one entry per line,
+//   fixed: property=<id> <commit> <what failed>
+//   finding: property=<id> signature=<signature> <what fails>
+// "fixed" entries suppress nothing; "finding" entries make the check print KNOWN-FINDING and
+// exclude exactly the cases failing with that signature.
 func loadKnown() {
 	if *flagKnown == "" {
 		return
@@ -237,11 +245,28 @@ func loadKnown() {
 	if err != nil {
 		return
 	}
-	var f struct {
-		Entries []knownEntry `json:"entries"`
-	}
-	if json.Unmarshal(b, &f) == nil {
-		knownFindings = f.Entries
+	for _, line := range strings.Split(string(b), "\n") {
+		line = strings.TrimSpace(line)
+		if !strings.HasPrefix(line, "finding:") {
+			continue
+		}
+		f := strings.Fields(strings.TrimPrefix(line, "finding:"))
+		e := knownEntry{Kind: "finding"}
+		var rest []string
+		for _, w := range f {
+			switch {
+			case strings.HasPrefix(w, "property=") && e.Property == "":
+				e.Property = strings.TrimPrefix(w, "property=")
+			case strings.HasPrefix(w, "signature=") && e.Signature == "":
+				e.Signature = strings.TrimPrefix(w, "signature=")
+			default:
+				rest = append(rest, w)
+			}
+		}
+		e.What = strings.Join(rest, " ")
+		if e.Property != "" && e.Signature != "" {
+			knownFindings = append(knownFindings, e)
+		}
 	}
 }
 
